@@ -407,10 +407,49 @@ func drawC17(t *rapid.T) any {
 	return c
 }
 
+// enumC17: constructed iterator histories. For every pool type P with a custom
+// folder: M = struct{A int; F P inline} (and the variants with *P and with an
+// inlined interface holding P) is folded (a) as the dynamic value of ANOTHER
+// struct's inlined interface first and on its own afterwards, (b) the other way
+// round, (c) inside a []interface{} next to the outer struct first. What an
+// iterator compiles for a type in one position must serve every later position.
+func enumC17(emit func(c any) bool) {
+	ifc := gomodel.TypeDesc{Kind: "iface"}
+	outer := gomodel.TypeDesc{Kind: "struct", Fields: []gomodel.FieldDesc{{Name: "Id", Type: gomodel.TypeDesc{Kind: "int"}}, {Name: "X", Tag: `struct:",inline"`, Type: ifc}}}
+	for _, p := range gomodel.Pool {
+		if !p.FoldOnly || p.Family {
+			continue
+		}
+		b := gomodel.TypeDesc{Kind: "pool", Pool: p.Name}
+		pb := gomodel.TypeDesc{Kind: "ptr", Elem: &b}
+		for _, ft := range []gomodel.TypeDesc{b, pb} {
+			m := gomodel.TypeDesc{Kind: "struct", Fields: []gomodel.FieldDesc{{Name: "A", Type: gomodel.TypeDesc{Kind: "int"}}, {Name: "F", Tag: `struct:",inline"`, Type: ft}}}
+			mt, err := gomodel.Build(&m)
+			if err != nil {
+				continue
+			}
+			mv := gomodel.SampleValue(mt)
+			mv2 := mv
+			dyn := gomodel.GoVal{Ptr: &mv2, Dyn: &m}
+			asOuter := GoCase{Type: outer, Val: gomodel.GoVal{Elems: []gomodel.GoVal{{I: 1}, dyn}}}
+			alone := GoCase{Type: m, Val: mv}
+			list := GoCase{Type: gomodel.TypeDesc{Kind: "slice", Elem: &ifc}, Val: gomodel.GoVal{Elems: []gomodel.GoVal{{Ptr: &asOuter.Val, Dyn: &outer}, dyn}}}
+			field := GoCase{Type: gomodel.TypeDesc{Kind: "struct", Fields: []gomodel.FieldDesc{{Name: "M", Type: m}, {Name: "L", Type: gomodel.TypeDesc{Kind: "slice", Elem: &m}}}},
+				Val: gomodel.GoVal{Elems: []gomodel.GoVal{mv, {Elems: []gomodel.GoVal{mv, mv}}}}}
+			for _, h := range [][]GoCase{{asOuter, alone}, {alone, asOuter, alone}, {list, alone}, {asOuter, field}, {field, asOuter, list}} {
+				if !emit(&C17Case{Kind: "iterator", Gos: h}) {
+					return
+				}
+			}
+		}
+	}
+}
+
 func init() {
 	register(&Property{
+		Enum:          enumC17,
 		ID:            "C17",
-		Rule:          "histories of 2..5 complete documents on ONE instance, per instance kind: 3 encoders (generated event streams incl. extended events, typed containers, options), 3 parsers (Parser.Parse for any value, Parser.Write for self-delimiting container documents; own and foreign documents incl. counted/typed containers), 3 pull decoders (byte slice and reader with generated read schedules, buffer sizes 1..8192, 1 in 4 with everything in one read, the last bytes alone or together with io.EOF; after the last document the decoder must report what a fresh decoder reports on no input), the fold iterator (generated Go types/values incl. pool types) and the unfolder (SetTarget + document via direct/json/ubjson/cborl; 1 in 6 histories walk one type with a user unfolder through different lookups: as target, through pointers, as slice/map element, as struct field; 1 in 3 histories with the key cache enabled at capacity 1, 2, 3 or 8); after EVERY step the instance's output for that document is compared with a fresh instance's (encoder bytes; parser/decoder events; iterator value; unfolder target) and all stack-depth hooks must be idle; non-trivial = history >= 2 documents (encoders: of at least two different shapes); distinct by case hash",
+		Rule:          "histories of 2..5 complete documents on ONE instance, per instance kind: 3 encoders (generated event streams incl. extended events, typed containers, options), 3 parsers (Parser.Parse for any value, Parser.Write for self-delimiting container documents; own and foreign documents incl. counted/typed containers), 3 pull decoders (byte slice and reader with generated read schedules, buffer sizes 1..8192, 1 in 4 with everything in one read, the last bytes alone or together with io.EOF; after the last document the decoder must report what a fresh decoder reports on no input), the fold iterator (generated Go types/values incl. pool types) and the unfolder (SetTarget + document via direct/json/ubjson/cborl; 1 in 6 histories walk one type with a user unfolder through different lookups: as target, through pointers, as slice/map element, as struct field; 1 in 3 histories with the key cache enabled at capacity 1, 2, 3 or 8); deterministic part: constructed iterator histories in which a struct with an inlined custom-folder field is first compiled as the dynamic value of another struct's inlined interface and used on its own afterwards (and the reverse, and inside lists/fields); after EVERY step the instance's output for that document is compared with a fresh instance's (encoder bytes; parser/decoder events; iterator value; unfolder target) and all stack-depth hooks must be idle; non-trivial = history >= 2 documents (encoders: of at least two different shapes); distinct by case hash",
 		New:           func() any { return &C17Case{} },
 		Draw:          drawC17,
 		Check:         checkC17,
